@@ -66,7 +66,20 @@ CHECKS['C15'] = dict(
          'interleaving.',
     note=ASSUME + '; mpsc channel closure and thread::scope join semantics; C14',
     technique='move/drop typestate on per-path event traces from abstract interpretation + call/argument identity checks')
-for _p in ['C02','C03','C04','C09','C10','C12','C16','C19']:
+CHECKS['C16'] = dict(
+    text='Decides on the reconstructed constructor term: full-circle image (atan2 then degrees), no dependence on elevation, the two Kaaba '
+         'constants, east/west antisymmetry (parity domain) and sign convention, rotation label = sign of the same field, Display prints '
+         '|degrees| and the label. The 1e-6 degree agreement is numeric: not decided.',
+    note=ASSUME + '; atan2 image (-pi, pi]',
+    technique='interval + parity abstract domains and dependence on the reconstructed bearing term')
+CHECKS['C19'] = dict(
+    text='Wiring of the binary decided on MIR: validated newtypes as argument field types, unmodified flow into Coordinates/Location, '
+         'method/start/end wiring with documented defaults, parsing dominates the library call, file route through from_str::<ParamsConfig>, '
+         'serialised/listed value is the library result of the one ParamsConfig, -p file is that same ParamsConfig. '
+         'JSON bytes, exit codes, terminal text are clap/serde/std semantics: not decided.',
+    note=ASSUME + '; clap derive uses the field type\'s FromStr (C18); serde derive symmetry',
+    technique='field-type + value-flow (wiring) analysis by abstract interpretation of the bin crate\'s MIR')
+for _p in ['C02','C03','C04','C09','C10','C12']:
     NA[_p] = 'check not yet registered in this commit (design in DESIGN.md §4; being built)'
 NA['C17'] = 'calendar equality over 3.65 M dates is arithmetic over runtime values (float floor, data-dependent search loops): no clause is visible in the shape of the code'
 NA['C20'] = 'metamorphic relation between numeric outputs through the whole ephemeris; the only structural fact behind it is not a necessary condition'
